@@ -271,6 +271,31 @@ pub fn shapes_case(r: &mut Rng) -> Vec<String> {
     run("opt", &mut || conn.opt(a, b) == d.opt(a, b));
     let k = r.next() as u8;
     run("unit_like", &mut || conn.unit_like((), ((), k)) == d.unit_like((), ((), k)));
+    // forty arguments, references among the last ten
+    {
+        use crate::abitraits::{Blob, ManyArgs, ManyArgsImpl, Rec};
+        let made = catch_unwind(AssertUnwindSafe(|| AbiConnection::<dyn ManyArgs>::from_boxed_trait(Box::new(ManyArgsImpl))));
+        match made {
+            Ok(Ok(c)) => {
+                let v: Vec<u32> = (0..30).map(|_| r.next() as u32).collect();
+                let (x30, x31, x33, x37, x39) = (r.next() as u32, r.next() as u32, r.next(), r.next() as u16, r.next() as u32);
+                let rec = Rec { id: r.next() as u32, name: rnd_string(r, 12), vals: (0..r.below(6)).map(|_| r.next() as u16).collect() };
+                let blob = Blob { bytes: [r.next() as u8; 40] };
+                let s = rnd_string(r, 20);
+                let (x35, x38) = (r.next() as u8, r.next());
+                let dm = ManyArgsImpl;
+                run("forty", &mut || {
+                    let call = |t: &dyn ManyArgs| {
+                        t.forty(v[0], v[1], v[2], v[3], v[4], v[5], v[6], v[7], v[8], v[9], v[10], v[11], v[12], v[13], v[14], v[15], v[16], v[17], v[18], v[19], v[20], v[21], v[22], v[23], v[24], v[25], v[26], v[27], v[28], v[29],
+                                &x30, &x31, &rec, &x33, &s, x35, &blob, &x37, x38, &x39)
+                    };
+                    call(&c) == call(&dm)
+                });
+            }
+            Ok(Err(e)) => out.push(format!("!C09 many-args-connection-not-created got={}", err_class(&e))),
+            Err(_) => out.push(format!("!C09 many-args-connection-panics got={}", panic_class(&last_panic()))),
+        }
+    }
     out
 }
 
